@@ -400,6 +400,42 @@ func (r *runner) stepMonitor() (string, string) {
 	return "", "solicitsys.step"
 }
 
+// monitorsFree evaluates the clauses that use neither the model nor the hash format (safety and
+// settled) on the real state reached by a free run.
+func (r *runner) monitorsFree(label string) {
+	v := r.w.view()
+	fs := append(v.safety(), v.settled()...)
+	fs = append(fs, r.endsCheck()...)
+	if r.sc.free {
+		// scripted, every solicitation added once: same protocol ∧ same context ∧ admitting ⇒ connected
+		for _, da := range v.dirs[0] {
+			for _, db := range v.dirs[1] {
+				if da.spec.pid != db.spec.pid || !bytes.Equal(da.spec.ctx, db.spec.ctx) || !v.w.admitsDirect(da.spec, 0) || !v.w.admitsDirect(db.spec, 1) {
+					continue
+				}
+				conn := false
+				for _, ra := range v.recv[0] {
+					for _, rb := range v.recv[1] {
+						conn = conn || (ra[0] == da.id && rb[0] == db.id && ra[1] >= 0 && ra[1] == rb[1])
+					}
+				}
+				if conn {
+					r.e.rep.Branches["free.connected"]++
+				} else {
+					fs = append(fs, finding{fmt.Sprintf("solicitations %v of A and %v of B name the same protocol and context and their constraints admit the link, yet at rest no stream connects them", da.spec, db.spec), "solicitsys.match:missed"})
+				}
+			}
+		}
+	}
+	for _, f := range fs {
+		if !relevant(r.e.a.Prop, f.key) || r.hits[f.key+f.what] {
+			continue
+		}
+		r.hits[f.key+f.what] = true
+		r.e.rep.Disagree(libDisagreement(label+" "+r.last, f))
+	}
+}
+
 // monitors evaluates every clause on a quiescent state.
 func (r *runner) monitors(branch string) {
 	v := r.w.view()
